@@ -24,20 +24,22 @@ def family_list(tier):
         ("gen", F.gen_family(tier)),
         ("pair", F.pair_family(tier)),
     ]
+    import os
+    only = os.environ.get("VERIF_FAMILIES")
+    if only:
+        fams = [f for f in fams if f[0] in only.split(",")]
     return fams
 
 
 def entry_subset(name, progs, tier):
-    """Programs that additionally run through the other entry modes."""
-    if name in ("ctlgen", "gen", "destr"):
-        return progs if tier == "thorough" else progs[::3]
-    if name == "ctl":
-        return progs[:2000] if tier == "quick" else progs[:16000]
-    if name in ("pair", "scope", "class"):
-        return progs[::7] if tier == "quick" else progs[::2]
-    if name == "op":
-        return progs[::23] if tier == "quick" else progs[::5]
-    return []
+    """Programs that additionally run through the other entry modes (chosen by text hash, so the choice is
+    stable when a family is edited)."""
+    q = tier == "quick"
+    k = {"ctlgen": 3 if q else 1, "gen": 3 if q else 1, "destr": 3 if q else 1, "ctl": 7 if q else 16,
+         "pair": 7 if q else 2, "scope": 7 if q else 2, "class": 7 if q else 2, "op": 23 if q else 5}[name]
+    if name == "ctl" and not q:
+        return [p for p in progs if int(core.sha12(p), 16) % 48 < 3]
+    return [p for p in progs if int(core.sha12(p), 16) % (k * 6) < 6] if k > 1 else list(progs)
 
 
 def main_wrap(p):
@@ -55,6 +57,13 @@ def gen(only=None):
             continue
         progs = list(dict.fromkeys(pq + pt))
         traces = golden.run_node([{"src": p} for p in progs])
+        for _ in range(3):  # a loaded machine can make V8 hit the per-script timeout: retry those alone
+            idx = [i for i, t in enumerate(traces) if t["completion"] == "TIMEOUT"]
+            if not idx:
+                break
+            again = golden.run_node([{"src": progs[i]} for i in idx], nproc=2)
+            for i, t in zip(idx, again):
+                traces[i] = t
         bad = [p for p, t in zip(progs, traces) if t["completion"] == "TIMEOUT"]
         if bad:
             print("TIMEOUT in node for", len(bad), "programs of", name, "e.g.", bad[0][-300:])
